@@ -377,6 +377,8 @@ fn ev_match(log: &mut Log, a: &Locale, bb: &Locale, ra: bool, rb: bool) {
 
 fn ev_value(log: &mut Log, loc: &Locale) {
     let ser = loc.to_string();
+    // rejected calls first: what a failed call leaves behind must not reach the round trip judged here (replay::poison_calls)
+    let _ = guard(crate::replay::poison_calls);
     let reparse_ok = matches!(guard(|| Locale::from_bytes(ser.as_bytes())), Ok(Ok(ref l2)) if l2 == loc && l2.to_string() == ser);
     let es = loc.extensions.to_string();
     let ext_ok = matches!(guard(|| ExtensionsMap::from_bytes(es.as_bytes())), Ok(Ok(ref e2)) if *e2 == loc.extensions);
@@ -926,6 +928,15 @@ fn drive_likely(r: &mut Rng, n: usize, log: &mut Log, data: &str) {
             }
         }
     }
+    // words the library's sources mention, in the positions they fit (a code the implementation treats specially)
+    let mut dict_s: Vec<String> = Vec::new();
+    for w in dict().iter() {
+        if let Ok(t) = std::str::from_utf8(w) {
+            if Script::from_bytes(w).is_ok() { scripts.push(Script::from_bytes(w).unwrap().as_str().to_string()); dict_s.push(scripts.last().unwrap().clone()); }
+            else if Region::from_bytes(w).is_ok() { regions.push(Region::from_bytes(w).unwrap().as_str().to_string()); }
+            else if Language::from_bytes(w).is_ok() && t.to_ascii_lowercase() != "und" { langs.push(t.to_ascii_lowercase()); }
+        }
+    }
     langs.sort(); langs.dedup(); scripts.sort(); scripts.dedup(); regions.sort(); regions.dedup();
     // regions / scripts the data keys with each language: the neighbours a remembered lookup would be confused with
     let mut keyed: std::collections::HashMap<String, (Vec<String>, Vec<String>)> = Default::default();
@@ -951,7 +962,7 @@ fn drive_likely(r: &mut Rng, n: usize, log: &mut Log, data: &str) {
         let (l, s, rg) = match burst.pop() {
             Some(t) => t,
             None => (if r.chance(1, 6) { "und".to_string() } else { r.pick(&langs).clone() },
-                     if r.chance(1, 2) { String::new() } else { r.pick(&scripts).clone() },
+                     if r.chance(1, 2) { String::new() } else if !dict_s.is_empty() && r.chance(1, 8) { r.pick(&dict_s).clone() } else { r.pick(&scripts).clone() },
                      if r.chance(1, 2) { String::new() } else { r.pick(&regions).clone() }),
         };
         #[cfg(feature = "likelysubtags")]
